@@ -176,6 +176,16 @@ def run(chk):
                     chk.violation('impl-vs-model', 'signed sum over the tetrahedra fed to a custom cell integral is not the integral over the cell: %s, %s' % (bad, where), rp, key='moments' + onwall)
                 else:
                     chk.traces += 1
+            # ---- every wall face of the exact cell is fed to the face integrals (a face that gets no triangles is dropped
+            # from the output without any error; what its triangles sum to is the next check)
+            for idx in sorted(mc):
+                e = mc[idx]
+                if e is None or e.failed != 'ok' or not any(f['left'] == idx for f in d['faces']):
+                    continue
+                want = sum(1 for x in e.faces if x.right is None and x.valid and area_gt(x.area2, 16 * tol.area))
+                have = sum(1 for f in d['faces'] if f['left'] == idx and f['right'] is None)
+                if have < want:
+                    chk.violation('impl-vs-model', 'cell %d has %d wall faces of non-negligible area, face integrals are reported for %d of them, %s' % (idx, want, have, where0), rp, key='face-missing')
             # ---- faces
             for f in d['faces']:
                 e = mc.get(f['left'])
